@@ -142,6 +142,28 @@ def structured_cases(rng: random.Random, n: int):
     return out
 
 
+def mw_cases(rng: random.Random, n: int):
+    """multi-world joints (gen_expr.struct_mw_*: children sharing a base variable across worlds / value marks, under Sums in
+    every relation between ranges and duplicated / single bases): idempotence and presentation invariance"""
+    out = []
+    for mode in GE.MW_MODES:
+        for _ in range(max(1, n // 60)):
+            nn = rng.choice([3, 4, 4, 5])
+            e, lab = GE.struct_mw_sum(rng, nn, mode=mode, pop=rng.choice([None, None, GE.POPS[0]]))
+            o = _ordering_for(rng, e, nn + 3)
+            out.append({"kind": "idem", "e": e, "ordering": o, "gen": lab})
+            out.append({"kind": "perm", "e": e, "e2": GE.present_shuffle(rng, e), "ordering": o, "gen": lab})
+    while len(out) < n:
+        nn = rng.choice([3, 4, 4, 5])
+        e, lab = GE.struct_mw_expr(rng, nn)
+        o = _ordering_for(rng, e, nn + 3)
+        if rng.random() < 0.45:
+            out.append({"kind": "idem", "e": e, "ordering": o, "gen": lab})
+        else:
+            out.append({"kind": "perm", "e": e, "e2": GE.present_shuffle(rng, e), "ordering": o, "gen": lab})
+    return out
+
+
 def _slots(case):
     if case["kind"] in ("idem", "perm"):
         return dict(F.canonicalize_slots(case["ordering"], "", True), **F.canonicalize_slots(case["ordering"], "_2", True))
@@ -181,6 +203,10 @@ def _cases(rng: random.Random, tier: str):
                 e, nn, _lab = _struct(rng)
             batch.append([e, _ordering_for(rng, e, nn)])
         out.append({"kind": "seeds", "batch": batch, "hashseeds": seeds, "shuffle": rng.randrange(1 << 30)})
+    mw = mw_cases(rng, 800 if tier == "quick" else 6000)      # appended: the streams above are unchanged
+    out += mw
+    batch = [[c["e"], c["ordering"]] for c in mw[:40]]
+    out.append({"kind": "seeds", "batch": batch, "hashseeds": seeds, "shuffle": rng.randrange(1 << 30)})
     return out
 
 
@@ -232,6 +258,7 @@ def run_python(case):
     if kind == "idem":
         c1, err = _canon(case["e"], case["ordering"], fm)
         tags = {"kind": kind, "well_scoped": GE.well_scoped(case["e"]), "depth": GE.depth(case["e"]),
+                "shared_base": GE.has_shared_base(case["e"]), "multiworld": GE.is_multiworld(case["e"]),
                 "ordering": "none" if case["ordering"] is None else "explicit", **_feat_tags(case), **F.tags(fm)}
         if c1 is None:
             return {"out": ["err"], "fail": None, "nontrivial": False, "tags": {**tags, "outcome": "err"}}
@@ -252,6 +279,7 @@ def run_python(case):
         c2, e2 = _canon(case["e2"], case["ordering"], fm, "_2")
         tags = {"kind": kind, "well_scoped": GE.well_scoped(case["e"]), "depth": GE.depth(case["e"]),
                 "shuffled": case["e"] != case["e2"], "ordering": "none" if case["ordering"] is None else "explicit",
+                "shared_base": GE.has_shared_base(case["e"]), "multiworld": GE.is_multiworld(case["e"]),
                 **_feat_tags(case), **F.tags(fm)}
         fail = None
         if c1 is None and c2 is None:
